@@ -835,3 +835,54 @@ def du1(ctx):
             ctx.check(named.endswith('FILE_NUM_BYTES') and from_count, '%s:size' % b.path, b.span, 'size = files.count() * FILE_NUM_BYTES', 'disk usage is not (number of tracked files x FILE_NUM_BYTES)')
     if n == 0:
         ctx.missing('size-fn', 'no RollingWriter size function found')
+
+
+@rule('RP2', ['C09', 'C04', 'C01'], floor=1, template='guard-dominates-exit')
+def rp2(ctx):
+    """Replaying a position record leaves an existing queue untouched only if it is empty AND already at
+    exactly that position; any other state is reset (this is what makes replay tolerate a lost entry)."""
+    n = 0
+    for b in ctx.f.bodies.values():
+        if not (b.path.startswith('mem::queues::MemQueues::') and b.arg_count == 3 and b.local_ty(3) == 'u64' and b.ret_ty == '()') or b.is_closure:
+            continue
+        inserts = [cs.point for cs in b.calls if re.search(r'HashMap::<.*>::insert$', cs.name)]
+        if not inserts:
+            continue
+        n += 1
+        fl = flow_of(b)
+        rets = b.return_points()
+        keep = [r for r in rets if r in b.reach([b.entry], avoid=inserts)]
+        if not keep:
+            ctx.ok('%s:keep-path' % b.path, b.span, 'every path (re)inserts the queue', nontrivial=False)
+            continue
+        t_next = set()
+        for c in b.calls:
+            if c.path.endswith('MemQueue::next_position'):
+                t_next |= fl.forward(set(fl.call_result_nodes(c)), skip_mem=True)
+        t_par = fl.forward(set(fl.local_sources(3)), skip_mem=True)
+        eq_edges = []
+        for bi, blk in enumerate(b.blocks):
+            if not b.live[bi] or blk['term']['k'] != 'switch':
+                continue
+            c = b.switch_cond(bi)
+            if c and c['kind'] == 'bool':
+                for o in c['origin']:
+                    if o[0] == 'rv' and o[2]['k'] == 'binop':
+                        a, bb = o[2]['a'], o[2]['b']
+                        rel = (fl.op_tainted(a, t_next) and fl.op_tainted(bb, t_par)) or (fl.op_tainted(bb, t_next) and fl.op_tainted(a, t_par))
+                        if rel:
+                            e = b.bool_edges(bi)
+                            if e and o[2]['op'] == 'Eq':
+                                eq_edges.append(e[0])
+                            elif e and o[2]['op'] == 'Ne':
+                                eq_edges.append(e[1])
+        empty_edges = [te for (bi, c, te, fe, cs) in b.switches_on_call(lambda c: c.path.endswith('MemQueue::is_empty'))]
+        # the keep path: reachable without any insert; it must take an equality edge and an is_empty true edge
+        r_no_eq = b.reach([b.entry], avoid=inserts, avoid_edges=eq_edges)
+        r_no_empty = b.reach([b.entry], avoid=inserts, avoid_edges=empty_edges)
+        # the "queue does not exist" branch always inserts, so it is not in `keep`
+        ok = bool(eq_edges) and bool(empty_edges) and not any(k in r_no_eq for k in keep) and not any(k in r_no_empty for k in keep)
+        ctx.check(ok, '%s:keep-needs-eq-and-empty' % b.path, b.span, 'an existing queue is kept only when empty and next_position() == position',
+                  'an existing queue can survive a replayed position record without being empty and exactly at that position (comparison is not an equality): a stale queue left by a lost entry is not reset and later entries fail to apply')
+    if n == 0:
+        ctx.missing('ack', 'no position re-alignment function (fn(&mut MemQueues, &str, u64)) with an insert found')
